@@ -1,16 +1,32 @@
 """C15 — results do not depend on whether the destination aliases an operand.
 
-Part 1 (translation tie, all-inputs theorems): every specified overload of the gmp++ Integer layer and of ZRing<Integer>
+Part 1 (Integer layer; translation tie, all-inputs theorems): every specified overload of the gmp++ Integer layer and of ZRing<Integer>
 is re-executed symbolically with its reference parameters sharing one location, for every alias pattern (set partitions of
 the Integer reference parameters incl. *this, no two outputs identified); one theorem per (overload, pattern) states that the
 aliased call returns the specification of the operand VALUES — i.e. exactly what the call with distinct objects returns
 (generated/IntegerAliasThms*.lean, same proof scripts as C01/C02).  The same aliased calls are executed on the real code.
+
+Part 2 (ring / field / rational / polynomial interfaces and RecInt; checks/c15_rings.py): a table of event programs per
+(kind, operation, alias pattern) regenerated from the clang AST on every run (translate/aliasfp.py), a decidable read-after-write
+discipline evaluated by the Lean kernel over the whole table (all_rows_safe), its soundness theorem for every interpretation of the
+primitives (discipline_sound, rings_alias_independent), and harness/h_alias.cpp calling every operation aliased and on distinct objects.
 """
-from . import integer
+from . import integer, c15_rings
 
 
 def run(prop, tier, seed, replay=None):
     V = integer.run(prop, tier, seed, replay=replay, finish=False)
-    V.coverage["rule"] = ("every alias pattern (set partitions of the Integer reference parameters incl. *this; no two outputs identified) of every "
-                          "specified overload × boundary grid; " + V.coverage.get("rule", ""))
+    part1 = dict(V.coverage)
+    part1["rule"] = ("every alias pattern (set partitions of the Integer reference parameters incl. *this; no two outputs identified) of every "
+                     "specified overload × boundary grid; " + part1.get("rule", ""))
+    c15_rings.run_rings(V, tier, seed, replay=replay)
+    part2 = dict(V.coverage)
+    cov = dict(part2)
+    for k in ("obligations", "discharged", "evaluations", "distinct_nontrivial", "traces_validated_against_impl", "precondition_rejected", "disagreements"):
+        cov[k] = (part1.get(k) or 0) + (part2.get(k) or 0)
+    cov["property_theorems"] = list(part1.get("property_theorems", [])) + list(part2.get("property_theorems", []))
+    cov["rule"] = "Integer layer: " + part1["rule"] + " || ring/polynomial/RecInt interfaces: " + part2.get("rule", "")
+    cov["integer_layer"] = {k: v for k, v in part1.items() if k not in ("trusted_base", "property_theorems")}
+    cov["checker_cmd"] = part1.get("checker_cmd", "") + " ; " + part2.get("checker_cmd", "")
+    V.coverage = cov
     V.finish()
